@@ -95,8 +95,17 @@ def blocklist_add(ctx):
 
 
 # ------------------------------------------------------------------------------ K6 consistency check
-def counted_wire(ctx, tag, n=None):
-    w = Wire([Vertex([0.0, 0.0, 0.0], 0), Vertex([1.0, 0.0, 0.0], 1)], 0, 0, 1)
+def counted_wire(ctx, tag, n=None, of=None, flipped=False):
+    """A wire with a symbolic count.  Its two vertex numbers are free (a wire may run from a lower to a higher
+    vertex number or the other way round); a coincident wire (`of`) joins the same two vertices, in the same or
+    in the opposite direction."""
+    if of is None:
+        ia, ib = ctx.int(tag + "_va", 0, 60), ctx.int(tag + "_vb", 0, 60)
+        ctx.assume(Not(ctx.eq(ia, ib)))
+        vs = [Vertex([0.0, 0.0, 0.0], ia), Vertex([1.0, 0.0, 0.0], ib)]
+    else:
+        vs = list(of.vertices[::-1] if flipped else of.vertices)
+    w = Wire(vs, 0, 0, 1)
     n = ctx.int(tag, 1, 500) if n is None else n
     w.grading.specification = [[1, n, 1]]
     return w, n
@@ -115,7 +124,7 @@ def check_consistency(ctx):
     cc = []
     for i, w in enumerate(wires):
         for j in range(k):
-            c, m = counted_wire(ctx, f"c{i}_{j}")
+            c, m = counted_wire(ctx, f"c{i}_{j}", of=w, flipped=(i + j) % 2 == 1)
             w.coincidents.add(c)
             cc.append((i, m))
     mgr = (manager_mod.WirePropagateManager if mk == "propagate" else manager_mod.WireChopManager)(wires)
@@ -194,27 +203,30 @@ def _write(mesh):
         _write.file_existed = existed
 
 
-def theorem_c01(ctx, mesh, text, exc, conflict_possible):
+def theorem_c01(ctx, mesh, text, exc, conflict_possible, again=""):
     """The property on the outcome of Mesh.write for a mesh whose chops define every direction."""
+    prove = ctx.prove
+    if again:
+        prove = lambda clause, cond, **info: ctx.prove(again + clause, cond, **info)
     if exc is not None:
-        ctx.prove("failure-is-an-inconsistent-grading-error", isinstance(exc, InconsistentGradingsError), exc=repr(exc)[:200])
-        ctx.prove("nothing-written-on-failure", not _write.file_existed)
-        ctx.prove("failure-only-if-chops-conflict", conflict_possible)
+        prove("failure-is-an-inconsistent-grading-error", isinstance(exc, InconsistentGradingsError), exc=repr(exc)[:200])
+        prove("nothing-written-on-failure", not _write.file_existed)
+        prove("failure-only-if-chops-conflict", conflict_possible)
         return
     edges = A.shared_edges(mesh.blocks)
     for key, lst in sorted(edges.items(), key=lambda kv: sorted(kv[0])):
         if len(lst) > 1:
             first = lst[0][2].grading.count
-            ctx.prove("shared-edge-same-count-in-every-block",
+            prove("shared-edge-same-count-in-every-block",
                       And([ctx.eq(first, w.grading.count) for _, _, w in lst[1:]]), edge=sorted(key))
     for b in mesh.blocks:
         for ax in b.axes:
-            ctx.prove("four-parallel-wires-carry-the-written-count", And([ctx.eq(w.grading.count, ax.count) for w in ax.wires]),
+            prove("four-parallel-wires-carry-the-written-count", And([ctx.eq(w.grading.count, ax.count) for w in ax.wires]),
                       block=b.index, axis=ax.index)
         with ctx.rendering() as R:
             desc = b.description
         shown = desc.split("(")[2].split(")")[0].split()
-        ctx.prove("hex-entry-prints-the-axis-counts",
+        prove("hex-entry-prints-the-axis-counts",
                   len(shown) == 3 and And([ctx.eq(R.value(tok), ax.count) for tok, ax in zip(shown, b.axes)]))
 
 
@@ -223,6 +235,9 @@ ROW3 = [(0, 0, 0), (1, 0, 0), (2, 0, 0)]
 ALL = ("x", "y", "z")   # global lattice directions chopped on a box
 SCEN = {
     "two-adjacent-both-chopped": ([(0, 0, 0), (1, 0, 0)], [0, 0], {0: ALL, 1: ALL}, [0, 1]),
+    "two-adjacent-in-y": ([(0, 0, 0), (0, 1, 0)], [0, 0], {0: ALL, 1: ALL}, [0, 1]),
+    "two-adjacent-in-z": ([(0, 0, 0), (0, 0, 1)], [0, 0], {0: ALL, 1: ALL}, [1, 0]),
+    "two-adjacent-in-y-second-rotated": ([(0, 0, 0), (0, 1, 0)], [0, 11], {0: ALL, 1: ALL}, [0, 1]),
     "two-adjacent-second-rotated": ([(0, 0, 0), (1, 0, 0)], [0, 5], {0: ALL, 1: ALL}, [0, 1]),
     "row3-middle-copies": (ROW3, [0, 0, 0], {0: ALL, 1: ("x",), 2: ALL}, [0, 1, 2]),
     "row3-middle-copies-middle-first": (ROW3, [0, 0, 0], {0: ALL, 1: ("x",), 2: ALL}, [1, 0, 2]),
@@ -260,3 +275,8 @@ def scenario(ctx):
         # a second attempt must fail again (no dictionary for a conflicting model, ever)
         text2, exc2, _ = _write(mesh)
         ctx.prove("second-attempt-fails-again", isinstance(exc2, (InconsistentGradingsError, UndefinedGradingsError)))
+    else:
+        # whenever writing succeeds: also when the same mesh is written once more
+        text2, exc2, _ = _write(mesh)
+        ctx.prove("second-write-succeeds-too", exc2 is None, exc=repr(exc2)[:200])
+        theorem_c01(ctx, mesh, text2, exc2, conflict_possible=False, again="second-write/")
